@@ -366,6 +366,8 @@ def _svg_placements(ctx):
             continue
         rep.saw(b)
         k += 1
+        # nest form: helpers unknown to the reference tree spliced in, fold/for_each written as loops (pk/loopform.py)
+        b = f.nest_form(b, yields=False)
         t = Tracer(b)
         cfg = CFG(b)
         # items of relative_positions()
